@@ -69,9 +69,20 @@ CHECKS = {
             "in 3 binding positions and every pair of 4 binder kinds in 3 placements must be refused.",
             "Trusts the reference interpreter for (ii); (i), (iii), (iv) need no model.",
             "DESIGN.md section 4 C10"),
+    "C05": ("exploration",
+            "bounded-exhaustive enumeration of programs, literal forms and single/double-gap layouts through the real parser + AstPrinter "
+            "(round trip, comment multiset and fixed-point oracles)",
+            "Every program of C01 strata S1, S2, S3-pairs, S4; 68 canonical statement forms covering every statement and expression kind with "
+            "each of 11 separators (incl. four comment placements, CRLF, indentation) at every gap between tokens (thorough: every pair of "
+            "gaps); 35 literal forms; every repository .ucg file. For each text: parse(fmt(s)) equals parse(s) modulo positions and field-name "
+            "quoting, the comments read by an independent scanner are unchanged, fmt is idempotent when comments stand on their own lines "
+            "between statements; `ucg fmt` and `ucg fmt -w` give the printer's bytes.",
+            "Trusts the AST normaliser (mc/src/astjson.rs) and the 30-line comment scanner. Comment texts are compared after trimming. "
+            "Three or more simultaneous non-canonical gaps are not covered.",
+            "DESIGN.md section 4 C05"),
 }
 
-CLAIMED = ["C01", "C02", "C04", "C07", "C10", "C11"]
+CLAIMED = ["C01", "C02", "C04", "C05", "C07", "C10", "C11"]
 
 NOT_YET = "check not built yet in this round; design in DESIGN.md section 4 (bounded-exhaustive enumeration applies)"
 
